@@ -344,7 +344,8 @@ def run_workload(w):
     njobs = len(w["jobs"])
     ctl.jobs = [None] * njobs
     wd = tempfile.mkdtemp(prefix="xpmverif-sched-", dir=w.get("scratch"))
-    trace = dict(steps=[], deps=[None] * njobs, dup=[None] * njobs, heaps=[None] * njobs, error=None)
+    trace = dict(steps=[], deps=[None] * njobs, dup=[None] * njobs, heaps=[None] * njobs, refused={}, error=None,
+                 ended="schedule")
     try:
         xp = experiment(wd, "x", port=-1)
         xp.__enter__()
@@ -378,7 +379,13 @@ def run_workload(w):
                 trace["heaps"][j] = dict(nodes=dump_heap(ctl, cfg, init),
                                          explicit=[ctl.jobidx.get(id(d.origin), -1) for d in cfg.__xpm__.dependencies
                                                    if isinstance(d, JobDependency)])
-            values[j] = cfg.submit(init_tasks=init) if init else cfg.submit()
+            try:
+                values[j] = cfg.submit(init_tasks=init) if init else cfg.submit()
+            except ValueError as e:
+                # the submission is refused (e.g. the job asks a token for more than it can ever give)
+                trace["refused"][j] = str(e)[:200]
+                ctl.jobs[j] = None
+                return False
             job = ctl.jobs[j]                   # the Job object created for this submission
             deps = []
             for d in job.dependencies:          # iteration order of the set = order used by the scheduler
@@ -392,6 +399,7 @@ def run_workload(w):
             if getattr(job, "_future", None) is None:
                 other = xp.scheduler.jobs.get(job.identifier)
                 trace["dup"][j] = ctl.jobidx.get(id(other), -1)
+            return True
 
         def start_wait(final):
             ctl.wait_future = None
@@ -456,7 +464,8 @@ def run_workload(w):
             if act[0] == "submit":
                 if act[1] != nxt:
                     raise ValueError("submissions must follow the job order")
-                do_submit(nxt)
+                if not do_submit(nxt):
+                    act = ["refused", nxt]
                 nxt += 1
                 ctl.quiesce()
             elif act[0] == "deliver":
@@ -471,6 +480,8 @@ def run_workload(w):
             trace["steps"].append(dict(act=act, snap=snap))
             if wait["final"] and snap["wait"] in ("returned", "raised", "other"):
                 break                    # the experiment has been left: the loop is stopped
+        if ctl.nsteps >= w.get("maxsteps", 400):
+            trace["ended"] = "maxsteps"          # the run did not come to rest within the bound
         trace["events"] = ctl.events
         trace["left"] = wait["final"] and wait_status() in ("returned", "raised")
         trace["all_submitted"] = nxt >= njobs
